@@ -679,10 +679,41 @@ fn viol(kind: &str, text: &str, observed: String, expected: &str) -> Viol {
   v
 }
 
+/// a frozen copy of C16's nested family as of the time the known-finding lists were recorded: the lists are keyed by text,
+/// so this check must not follow later growth of another check's documents
+fn nested_frozen() -> Vec<String> {
+  let inner = ["int / tstr", "int / tstr / bool", "1 .. 2", "tstr .size 3", "x: int / tstr", "x: int, y: tstr / bool", "a: 1 // b: 2", "* int / tstr", "? x: int // tstr"];
+  let boxes = ["( _ )", "[ _ ]", "{ _ }", "#6.1( _ )", "n< _ >", "m< int, _ >", "{ _ => int }", "[ * ( _ ) ]", "&( _ )", "{ k: ( _ ), y: bool }", "[ ( _ ), bool ]", "( _ ) / bool", "bool / ( _ )"];
+  let mut out = vec![];
+  for i in inner {
+    for b in boxes {
+      let t = b.replace('_', i);
+      out.push(format!("r = {t}\nm<a, b> = [a, b]\nn<a> = a\n"));
+      for b2 in ["[ _ ]", "{ z: _ }", "( _ )"] {
+        out.push(format!("r = {}\n", b2.replace('_', &t)));
+      }
+    }
+  }
+  // wide groups: three group choices, more than three entries (the printer switches layout at both thresholds)
+  for w in ["a: int // b: tstr // c: bool", "int // tstr // bool", "a: int, b: tstr, c: bool, d: nil", "a: 1, b: 2 // c: 3, d: 4 // e: 5", "a: int, b: tstr, c: bool, d: nil // e: int", "a: 1, b: 2, c: 3, d: 4 // e: 5 // f: 6",
+    // literals holding the other quote character, and entries with nested structure, in a group of three choices
+    "\"it's\", tstr // 'say \"hi', int // bool", "a: { k: int, l: tstr } // b: [ int, tstr ] // c: int / tstr"] {
+    for b in ["{ _ }", "[ _ ]", "&( _ )"] {
+      out.push(format!("r = {}\n", b.replace('_', w)));
+    }
+    out.push(format!("g = ( {w} )\nr = int\n"));
+  }
+  for i in inner {
+    out.push(format!("g = ( {i} )\nr = int\n"));
+    out.push(format!("g<t> = ( {i} )\nr = int\n"));
+  }
+  out
+}
+
 /// structured documents and every single-character deletion / substitution / insertion of a probe
 fn mutants(tier: Tier) -> Vec<String> {
   let mut base: Vec<String> = docs_multi(Tier::Quick).into_iter().step_by(tier.pick(13, 3)).collect();
-  base.extend(crate::c16::docs_nested().into_iter().step_by(tier.pick(11, 2)));
+  base.extend(nested_frozen().into_iter().step_by(tier.pick(11, 2)));
   base.extend(docs_operators().into_iter().step_by(tier.pick(17, 3)));
   base.extend(
     [
@@ -926,6 +957,36 @@ fn atom_mirror(run: &mut Run) -> u64 {
         Err(p) => run.viol(Viol { kind: "panic".into(), case: json!({"cddl": text}), observed: p, expected: "Ok or Err".into(), finding: None }),
       }
     }
+    // operators: type1 = type2 [S (rangeop / ctlop) S type2] keeps target, operator and controller apart, whatever the atoms
+    let hole1 = "type1(typename(ident<bool>))";
+    if bshape.matches(hole1).count() != 1 {
+      continue;
+    }
+    let operands: Vec<&(String, String)> = atoms.iter().filter(|(sp, _)| ["#", "#0", "#7.25", "(int)", "~a", "m<int>", "$s", "#6.1(int)"].contains(&sp.as_str())).collect();
+    for (op, label) in [(".within", ".WITHIN"), (".and", ".AND"), (".size", ".SIZE"), (".default", ".DEFAULT"), ("..", ".."), ("...", "...")] {
+      for (tsp, tw) in &operands {
+        for (csp, cw) in &operands {
+          let text = format!("{}\n{lib}", ctx.replace('@', &format!("{tsp} {op} {csp}")));
+          let expected = bshape.replace(hole1, &format!("type1({tw} op<{label}> {cw})"));
+          n += 1;
+          match catch(|| cddl::cddl_from_str(&text, false)) {
+            Ok(Ok(ast)) => {
+              let got = crate::shape::cddl(&ast).shape();
+              if got != expected {
+                run.viol(viol("ast-mirror", &text, format!("AST shape {}", crate::c06::first_diff(&expected, &got)), "type1 keeps target, operator and controller as written"));
+              }
+            }
+            Ok(Err(e)) => {
+              let e = e.to_string();
+              if !semantic_rejection(&e) {
+                run.viol(viol("derivable-but-rejected", &text, format!("rejected: {}", trunc(&e)), "accepted: type1 = type2 S operator S type2"));
+              }
+            }
+            Err(p) => run.viol(Viol { kind: "panic".into(), case: json!({"cddl": text}), observed: p, expected: "Ok or Err".into(), finding: None }),
+          }
+        }
+      }
+    }
   }
   n
 }
@@ -1059,7 +1120,7 @@ pub fn run(tier: Tier) -> i32 {
      operator and generic parameters. D: arrays, maps and '&( )' groups composed of 1-3 '//'-separated choices of 0-2 entries over an entry alphabet (4; thorough 7: plain type, bareword \
      key, occurrence + name, typed key, value key, cut, inline group): the AST shape equals the composition of the shapes the entries have on their own (one group choice per alternative, \
      empty ones included). E: every type2 alternative ('#', '#n', '#n.m', '#7.<t>', the four tag forms, '~a', '&b', generic application, parenthesised type, socket) in four contexts: \
-     the AST node is the one the ABNF alternative denotes (major type and head number kept)."
+     the AST node is the one the ABNF alternative denotes (major type and head number kept); 6 operators x 8 x 8 atom operands: target, operator and controller as written."
   );
   run.finish()
 }
